@@ -342,6 +342,8 @@ def judge (_id : String) (lines : Array String) : Verdict := Id.run do
   if Gen.flapStartOffset.isNone then return .badop "the loop of percentChange was not recognised (Kap.Gen.C01)"
   if effHistory none < 2 then return .badop "history default / clamp were not extracted (Kap.Gen.C01)"
   let mut d : DS := {}
+  -- a model/implementation difference is reported only after the spec has been evaluated on EVERY observation line
+  let mut pend : Option Verdict := none
   for l in lines do
     let (opT, obs) := splitObs (tokens l)
     match opT with
@@ -408,7 +410,7 @@ def judge (_id : String) (lines : Array String) : Verdict := Id.run do
         return .specfail clause s!"events: {detail} (model {if observed == md then "agrees with" else "differs from"} the implementation)"
       if observed != md then
         let (_, detail) := classify 3 md observed
-        return .mismatch s!"events: model vs implementation: {detail}"
+        pend := pend.orElse (fun _ => some (Verdict.mismatch s!"events: model vs implementation: {detail}"))
     | ["fwd"] =>
       let some observed := parseList obs | return .badop l
       let batch := d.conf.form == "b" || d.conf.form == "w"
@@ -417,7 +419,7 @@ def judge (_id : String) (lines : Array String) : Verdict := Id.run do
       if observed != sp then
         return .specfail "forwarded-data" s!"{fwdDiff sp observed} (model {if observed == md then "agrees with" else "differs from"} the implementation)"
       if observed != md then
-        return .mismatch s!"forwarded data: model vs implementation: {fwdDiff md observed}"
+        pend := pend.orElse (fun _ => some (Verdict.mismatch s!"forwarded data: model vs implementation: {fwdDiff md observed}"))
     | [which] =>
       if which != "eventsa" && which != "eventsb" then return .badop l
       let pre := if which == "eventsa" then "ma:" else "mb:"
@@ -430,8 +432,9 @@ def judge (_id : String) (lines : Array String) : Verdict := Id.run do
         return .specfail clause s!"{which}: {detail} (model {if observed == md then "agrees with" else "differs from"} the implementation)"
       if observed != md then
         let (_, detail) := classify 3 md observed
-        return .mismatch s!"{which}: model vs implementation: {detail}"
+        pend := pend.orElse (fun _ => some (Verdict.mismatch s!"{which}: model vs implementation: {detail}"))
     | _ => return .badop l
+  if let some v := pend then return v
   let nt := d.modelOut.size ≥ 2 && d.quiet ≥ 1
   return .ok nt d.branches.reverse
 
